@@ -12,9 +12,10 @@ vars == <<phase, idx, enc, dec, n>>
 
 \* phase "machine": enc/dec states and number of steps; phases "block"/"bad": idx picks a sample
 Init == \/ /\ phase = "machine" /\ idx = -1 /\ enc \in 0..7 /\ dec = enc /\ n = 0
-        \/ /\ phase \in {"block", "bad", "struct"} /\ idx = -1 /\ enc = 0 /\ dec = 0 /\ n = 0
+        \/ /\ phase \in {"block", "bad", "struct", "comp"} /\ idx = -1 /\ enc = 0 /\ dec = 0 /\ n = 0
 
-Size(ph) == CASE ph = "block" -> Len(D.blocks) [] ph = "bad" -> Len(D.bad) [] ph = "struct" -> 1 [] OTHER -> 0
+Size(ph) == CASE ph = "block" -> Len(D.blocks) [] ph = "bad" -> Len(D.bad) [] ph = "struct" -> 1
+                    [] ph = "comp" -> Len(D.comp) [] OTHER -> 0
 
 Next == \/ /\ phase = "machine" /\ n < MaxLen
            /\ \E t \in 0..7 : /\ enc' = t
@@ -57,6 +58,14 @@ Judge(ph, i) ==
              model == IF Run[49] = -1 THEN "rejected" ELSE "decoded"
          IN [why |-> IF ~reachable /\ s.outcome # "rejected" THEN "UnreachablePointRejected" ELSE "ok",
              dr |-> IF model # s.outcome THEN "decoder-run-differs-from-model" ELSE "ok"]
+    [] ph = "comp" ->
+         \* the two permutations composed by a caller that hands the result of one straight to the other:
+         \* x, y = interleave(x) (as seen right after the call), z = deinterleave(y); and the other way round
+         LET s == D.comp[i + 1] IN
+         [why |-> IF s.err # "" THEN "InterleaveComposition/" \o s.err
+                  ELSE IF s.z # s.x THEN (IF s.dir = "di" THEN "DeinterleaveInvertsInterleave" ELSE "InterleaveInvertsDeinterleave")
+                  ELSE IF s.ylater # s.y THEN "ResultOverwrittenByLaterCall" ELSE "ok",
+          dr |-> IF s.dir = "di" /\ \E j \in 1..98 : s.y[j] # s.x[D.I[j] + 1] THEN "interleave-differs-from-learned-permutation" ELSE "ok"]
     [] ph = "struct" -> [why |-> IF Structure # "ok" THEN "InterleaveIsPermutation/" \o Structure ELSE "ok", dr |-> "ok"]
 
 Report ==
